@@ -22,6 +22,7 @@ mod cmd_schema_syn;
 mod cmd_ext;
 mod cmd_level;
 mod cmd_manifest;
+mod cmd_entjson;
 
 /// Command families.  To add one: create src/cmd_xxx.rs with
 /// `pub fn dispatch(cmd: &str, v: &J) -> Option<Result<J, String>>`, add `mod cmd_xxx;` above
@@ -43,6 +44,7 @@ const FAMILIES: &[fn(&str, &J) -> Option<Result<J, String>>] = &[
     cmd_ext::dispatch,
     cmd_level::dispatch,
     cmd_manifest::dispatch,
+    cmd_entjson::dispatch,
 ];
 
 fn dispatch(cmd: &str, v: &J) -> Result<J, String> {
